@@ -772,7 +772,9 @@ fn line_set(p: &Program, pr: &Printed, w: &Where) -> Option<BTreeSet<usize>> {
 
 /// Err = disagreement between the compiler and the reference verdict.
 pub fn judge_mutant(m: &Mutant) -> Result<Option<(Class, String)>, String> {
-    let pr = print::print_with(&m.program, true);
+    // printed with the varied layout (blank lines, comment lines and trailing comments, some with
+    // multi-byte characters): the reported line must still be a line of the injected defect
+    let pr = print::print_with(&m.program, false);
     match compile_verdict(&pr.text) {
         Verdict::Timeout => Ok(None),
         Verdict::Crashed(e) => Err(format!("compiler crashed on a mutant ({}): {}", m.op, e)),
